@@ -847,3 +847,214 @@ func (s *decScope) ruleDICounter(rule string) {
 		}
 	}
 }
+
+// DI.RANGE — a fixed-size array indexed by the position of a range loop over a
+// slice that came from the input (res[i] for i, x := range record) needs the
+// slice to be no longer than the array: a dominating test of len(slice)
+// against the array length (== N, <= N, or != N / > N leading out), or, for a
+// record handed out by encoding/csv, a reader whose FieldsPerRecord is set to
+// exactly N wherever the package configures one (and nowhere to anything else).
+func (s *decScope) ruleDIRange(rule string) {
+	c := s.c
+	for _, fn := range s.fns {
+		if s.guarded[fn] || fn.Blocks == nil {
+			continue
+		}
+		n := 0
+		for _, b := range fn.Blocks {
+			for _, ins := range b.Instrs {
+				ia, ok := ins.(*ssa.IndexAddr)
+				if !ok {
+					continue
+				}
+				pt, ok := ia.X.Type().Underlying().(*types.Pointer)
+				if !ok {
+					continue
+				}
+				arr, ok := pt.Elem().Underlying().(*types.Array)
+				if !ok {
+					continue
+				}
+				// the index: phi of a range-over-slice loop (rangeindex lowering:
+				// i.next = phi + 1, compared with len(S))
+				seq := rangedSlice(ia.Index)
+				if seq == nil {
+					continue
+				}
+				n++
+				key := fmt.Sprintf("%s range index#%d into [%d]", qname(fn), n, arr.Len())
+				ok1 := false
+				why := ""
+				for _, f := range factsAt(b) {
+					be, isB := f.cond.(*ssa.BinOp)
+					if !isB {
+						continue
+					}
+					x, y, op := be.X, be.Y, be.Op
+					if isLenOf(y, seq) {
+						x, y = y, x
+						op = map[token.Token]token.Token{token.LSS: token.GTR, token.GTR: token.LSS, token.LEQ: token.GEQ, token.GEQ: token.LEQ, token.EQL: token.EQL, token.NEQ: token.NEQ}[op]
+					}
+					if !isLenOf(x, seq) {
+						continue
+					}
+					k, isC := constInt(y)
+					if !isC {
+						continue
+					}
+					switch {
+					case op == token.EQL && f.taken && k <= arr.Len(), op == token.NEQ && !f.taken && k <= arr.Len(),
+						op == token.LEQ && f.taken && k <= arr.Len(), op == token.GTR && !f.taken && k <= arr.Len(),
+						op == token.LSS && f.taken && k <= arr.Len()+1, op == token.GEQ && !f.taken && k <= arr.Len()+1:
+						ok1, why = true, "a dominating test bounds the length of the ranged slice by the array length"
+					}
+				}
+				if !ok1 {
+					if k, known := sliceExprLen(seq); known && k <= arr.Len() {
+						ok1, why = true, fmt.Sprintf("the ranged slice expression has exactly %d elements", k)
+					}
+				}
+				if !ok1 {
+					if k, found := csvFieldsPerRecord(fn, seq); found && k == arr.Len() {
+						ok1, why = true, fmt.Sprintf("the record comes from an encoding/csv reader that this package always configures with FieldsPerRecord = %d", k)
+					}
+				}
+				if ok1 {
+					c.ok(rule, key, ia.Pos(), why)
+				} else {
+					c.bad(rule, key, ia.Pos(), fmt.Sprintf("a [%d] array is indexed by the position in a slice that comes from the input, and nothing bounds the length of that slice by %d: a longer record indexes out of range", arr.Len(), arr.Len()))
+				}
+			}
+		}
+	}
+}
+
+// rangedSlice: idx is the index variable of `for i, x := range S` over a slice;
+// returns S.
+func rangedSlice(idx ssa.Value) ssa.Value {
+	// rangeindex lowering: phi(-1, next); next = phi + 1; if next < len(S)
+	bin, ok := idx.(*ssa.BinOp)
+	if !ok || bin.Op != token.ADD {
+		return nil
+	}
+	phi, ok := bin.X.(*ssa.Phi)
+	if !ok {
+		return nil
+	}
+	if k, isC := constInt(bin.Y); !isC || k != 1 {
+		return nil
+	}
+	for _, ref := range *bin.Referrers() {
+		cmp, ok := ref.(*ssa.BinOp)
+		if !ok || cmp.Op != token.LSS || cmp.X != ssa.Value(bin) {
+			continue
+		}
+		if call, ok := cmp.Y.(*ssa.Call); ok {
+			if bi, isB := call.Call.Value.(*ssa.Builtin); isB && bi.Name() == "len" && len(call.Call.Args) == 1 {
+				if _, isSl := call.Call.Args[0].Type().Underlying().(*types.Slice); isSl {
+					_ = phi
+					return call.Call.Args[0]
+				}
+			}
+		}
+	}
+	return nil
+}
+
+// csvFieldsPerRecord: seq is the record returned by (*csv.Reader).Read, and
+// every store to csv.Reader.FieldsPerRecord in the package of fn writes the same
+// constant; returns it.
+func csvFieldsPerRecord(fn *ssa.Function, seq ssa.Value) (int64, bool) {
+	ex, ok := seq.(*ssa.Extract)
+	if !ok {
+		return 0, false
+	}
+	call, ok := ex.Tuple.(*ssa.Call)
+	if !ok {
+		return 0, false
+	}
+	f := call.Call.StaticCallee()
+	if f == nil || f.Pkg == nil || f.Pkg.Pkg.Path() != "encoding/csv" || f.Name() != "Read" {
+		return 0, false
+	}
+	var val int64
+	found := false
+	consistent := true
+	var visit func(g *ssa.Function)
+	visit = func(g *ssa.Function) {
+		for _, b := range g.Blocks {
+			for _, ins := range b.Instrs {
+				st, ok := ins.(*ssa.Store)
+				if !ok {
+					continue
+				}
+				fa, ok := st.Addr.(*ssa.FieldAddr)
+				if !ok {
+					continue
+				}
+				fv := fieldOf(fa)
+				if fv == nil || fv.Name() != "FieldsPerRecord" || fv.Pkg() == nil || fv.Pkg().Path() != "encoding/csv" {
+					continue
+				}
+				k, isC := constInt(st.Val)
+				if !isC || (found && k != val) {
+					consistent = false
+				}
+				val, found = k, true
+			}
+		}
+		for _, a := range g.AnonFuncs {
+			visit(a)
+		}
+	}
+	if fn.Pkg == nil {
+		return 0, false
+	}
+	for _, m := range fn.Pkg.Members {
+		switch x := m.(type) {
+		case *ssa.Function:
+			visit(x)
+		case *ssa.Type:
+			for _, t := range []types.Type{x.Type(), types.NewPointer(x.Type())} {
+				ms := fn.Prog.MethodSets.MethodSet(t)
+				for i := 0; i < ms.Len(); i++ {
+					if g := fn.Prog.MethodValue(ms.At(i)); g != nil && g.Pkg == fn.Pkg {
+						visit(g)
+					}
+				}
+			}
+		}
+	}
+	return val, found && consistent
+}
+
+// sliceExprLen: the length of s[len(s)-K:], s[:K] or s[A:B] with constant
+// bounds.
+func sliceExprLen(v ssa.Value) (int64, bool) {
+	sl, ok := v.(*ssa.Slice)
+	if !ok {
+		return 0, false
+	}
+	if sl.High == nil && sl.Low != nil {
+		if bin, ok := sl.Low.(*ssa.BinOp); ok && bin.Op == token.SUB && isLenOf(bin.X, sl.X) {
+			if k, isC := constInt(bin.Y); isC && k >= 0 {
+				return k, true
+			}
+		}
+		return 0, false
+	}
+	if sl.High != nil {
+		hi, ok := constInt(sl.High)
+		if !ok {
+			return 0, false
+		}
+		lo := int64(0)
+		if sl.Low != nil {
+			if lo, ok = constInt(sl.Low); !ok {
+				return 0, false
+			}
+		}
+		return hi - lo, true
+	}
+	return 0, false
+}
